@@ -43,7 +43,22 @@ func zzmOf(d *DB) *zzmState {
 	return s
 }
 
+// ZZUnordered switches the model to an insertion-ordered list with equality-only lookups; entries are
+// sorted lazily, and only those a scan selects. For harnesses whose keys are symbolic hash values
+// (Merkle nodes): keeping such keys sorted would fork on the order of every pair of hashes although
+// nobody ever iterates over them. Set by the harness before it creates the database (globals are fresh
+// on every path).
+var ZZUnordered bool
+
 func (s *zzmState) find(key []byte) (int, bool) {
+	if ZZUnordered {
+		for i, kv := range s.kvs {
+			if bytes.Equal(kv.k, key) {
+				return i, true
+			}
+		}
+		return len(s.kvs), false
+	}
 	for i, kv := range s.kvs {
 		c := bytes.Compare(kv.k, key)
 		if c == 0 {
@@ -85,6 +100,29 @@ func (s *zzmState) get(key []byte) ([]byte, bool) {
 }
 
 func (s *zzmState) scan(match func(k []byte) bool, limit int, reverse bool) []KeyValue {
+	if ZZUnordered {
+		// select, then sort the selection (selection sort; keys are pairwise distinct)
+		var sel []zzmKV
+		for _, kv := range s.kvs {
+			if match(kv.k) {
+				sel = append(sel, kv)
+			}
+		}
+		out := []KeyValue{}
+		for len(sel) > 0 && (limit < 0 || len(out) < limit) {
+			b := 0
+			for i := 1; i < len(sel); i++ {
+				c := bytes.Compare(sel[i].k, sel[b].k)
+				if (!reverse && c < 0) || (reverse && c > 0) {
+					b = i
+				}
+			}
+			out = append(out, &keyValue{key: append([]byte{}, sel[b].k...), value: append([]byte{}, sel[b].v...)})
+			sel[b] = sel[len(sel)-1]
+			sel = sel[:len(sel)-1]
+		}
+		return out
+	}
 	out := []KeyValue{}
 	n := len(s.kvs)
 	for i := 0; i < n; i++ {
